@@ -1945,3 +1945,52 @@ package mcp
 //@ func sseClientTransport.sendRequest$1
 //@   sweep[C17] nowait
 //@
+// ---- C06 — a server built with sessions disabled has no session manager: its methods are invoked only where the
+// manager is known to be present (type invariant: sessions enabled ==> manager present)
+// (established by the last statement of newHTTPServerHandler, whatever the options did; the constructor itself is
+// not under contract because of its loop over option closures: assumed at entry of the handlers)
+//@ type httpServerHandler
+//@   invariant[C06,C03 sessions-enabled-means-a-session-manager-is-present] self.enableSession ==> !isnil(self.sessionManager)
+//@ func withTransportSessionManager$1
+//@   helper
+//@ func withoutTransportSession$1
+//@   helper
+//@ func withTransportStatelessMode$1
+//@   helper
+//@ sweepscope[C06,C03] kinds=nilsession files=streamable_server.go
+//@ func httpServerHandler.handleStreamResumption
+//@   requires[C06,C03] !isnil(h.sessionManager)
+//@
+// ---- thirteenth measurement round (ids -14): general facts behind the misses ----
+// C03 — a handler never answers with nothing: without a Go error there is a result or an error object
+//@ func resourceManager.handleSubscribe
+//@   ensures[C03 an-answer-is-never-empty] !isnil(ret)
+//@ func resourceManager.handleUnsubscribe
+//@   ensures[C03 an-answer-is-never-empty] !isnil(ret)
+//@ func resourceManager.handleReadResource
+//@   ensures[C03 an-answer-is-never-empty] !isnil(ret)
+//@ func promptManager.handleGetPrompt
+//@   ensures[C03 an-answer-is-never-empty] !isnil(ret)
+//@
+// C19 — an exchange never makes the client forget the session id it holds
+//@ func streamableHTTPClientTransport.sendNotification
+//@   ensures[C19 a-session-id-once-held-is-not-forgotten-by-an-exchange] old(t.sessionID) != "" ==> t.sessionID != ""
+//@ func streamableHTTPClientTransport.send
+//@   ensures[C19 a-session-id-once-held-is-not-forgotten-by-an-exchange] old(t.sessionID) != "" ==> t.sessionID != ""
+//@
+// C12 — registering a resource installs a new entry for its URI, also when the descriptor is the one already registered
+//@ func resourceManager.registerResource
+//@   ensures[C12 registration-installs-a-new-entry] resource != nil && resource.URI != "" ==> (resource.URI in m.resources) && m.resources[resource.URI] != nil && isfresh(m.resources[resource.URI]) && m.resources[resource.URI].Resource == resource
+//@
+// C01 / C05 — legacy SSE: notifications have a queue of their own (a burst of notifications cannot push an answer out
+// of the answers' queue)
+//@ func SSEServer.sendNotificationToSession
+//@   before call send#1 assert[C01,C05 notifications-have-a-queue-of-their-own] sendch == session.notificationChannel
+//@
+// C05 / C01 — server-issued request ids count up from zero, so they stay exactly representable as JSON numbers
+//@ type Server
+//@   private[C05,C01] requestID writers ListRoots, SendRequest
+//@
+// C07 — the hand-written decoders of mcp_types.go are under the same safety sweep as the other client-side decoders
+//@ sweepscope[C07,C06] kinds=typeassert,nilmap,index,nilresult files=mcp_types.go
+//@
